@@ -1,4 +1,5 @@
 import StunVerif.Props.C13
+import StunVerif.Props.SrcFnXor
 #print axioms StunVerif.C13.key_length
 #print axioms StunVerif.C13.xor_involutive
 #print axioms StunVerif.C13.built_decodes
@@ -12,3 +13,4 @@ import StunVerif.Props.C13
 #print axioms StunVerif.C13.src_const4
 #print axioms StunVerif.C13.src_const6
 #print axioms StunVerif.C13.src_fp_const
+#print axioms StunVerif.SrcFnXor.src_xorAddr
